@@ -922,6 +922,8 @@ class Index:
 
     def _type_of_def(self, d: Optional[Def], depth) -> Optional[Def]:
         if isinstance(d, ParamDef):
+            if d.func.cls is not None and d.arg.arg == d.func.self_name:
+                return d.func.cls
             return self.annotation_class(d.func.module, d.func.parent, d.arg.annotation)
         if isinstance(d, LocalDef):
             types = set()
